@@ -635,9 +635,9 @@ class Game(AsyncMode):
         have *num=1*, Player 4 will have *num=4*, etc.)
         '''
 
-        # set player if there is none
+        # set player if there is none: the first player begins, also when a later player finished adding first
         if not self.player:
-            self.player = player
+            self.player = self.player_list[0]
 
         # At least one player has been added to the current game, set event
         self._at_least_one_player_event.set()
